@@ -1355,6 +1355,10 @@ func c10(c *core.Ctx) {
 	c.Clause("C10.10", "the all-candidates index of one block is not altered by what another block writes: the copy-on-write clause of PatriciaTrie.put (C09.1) is evaluated here as well — a full re-rank reads that index")
 	c.Run("index-copy-on-write", func() { c09PutCOW(c) })
 
+	c.Clause("C10.11", "what is ranked is what the accounts say: every vote change reaches the ranking as a VotesLog with different old and new value and only candidates hold votes — the writer clause C11.2 (a count is changed through SetVotes with a fresh value, never by mutating GetVotes' result: such a log has OldVal == NewVal and is dropped before the ranking) and the candidate-guard clause C11.3 (an unregistered candidate keeps 0 votes; the full re-rank relies on it) are evaluated here as well")
+	c.Run("vote-writers", func() { c11Writers(c) })
+	c.Run("vote-guards", func() { c11Guards(c) })
+
 	c.NotDecidedf("that the incremental updateTop (four branches on list fullness and movement of the minimum) yields the same list as a full sort of all registered candidates over a history of blocks — arithmetic on runtime lists, not decided")
 	c.NotDecidedf("that the list after a restart equals the list of a node that never stopped (the persisted candidate file versus the in-memory index as values); only the structural repopulation of the index is decided")
 	c.NotDecidedf("that candidates unregistered in EARLIER blocks leave the all-candidates index (CandidateTrieDB has no delete): C10.8 only decides the filter for the current block's unregister set")
